@@ -232,6 +232,16 @@ def _predicate_body(fi: FuncInfo) -> Optional[List[Tuple[List[Tuple[ast.AST, boo
     return out
 
 
+class _GetattrConst(ast.NodeTransformer):
+    """getattr(x, "name") with a constant identifier is x.name"""
+
+    def visit_Call(self, node: ast.Call):
+        self.generic_visit(node)
+        if isinstance(node.func, ast.Name) and node.func.id == "getattr" and len(node.args) == 2 and not node.keywords and isinstance(node.args[1], ast.Constant) and isinstance(node.args[1].value, str) and node.args[1].value.isidentifier():
+            return ast.copy_location(ast.Attribute(value=node.args[0], attr=node.args[1].value, ctx=ast.Load()), node)
+        return node
+
+
 def expand_atoms(fa: FuncAnalysis, atoms: List[Tuple[ast.AST, bool]], depth: int = 2) -> List[Tuple[ast.AST, bool]]:
     """Add the facts implied by calls of small package predicate helpers and by boolean flag variables:
     `helper(x)` True  ->  conditions under which helper returns a truthy value, with parameters replaced by
@@ -325,6 +335,32 @@ def expand_atoms(fa: FuncAnalysis, atoms: List[Tuple[ast.AST, bool]], depth: int
                         nxt += new
                 continue
             if not (isinstance(a, ast.Call) and not a.keywords):
+                continue
+            if isinstance(a.func, ast.Name) and a.func.id in ("any", "all") and len(a.args) == 1 and isinstance(a.args[0], (ast.GeneratorExp, ast.ListComp)) and ((a.func.id == "any") != pol):
+                # not any(P(f) for f in ("a", "b"))  is  not P("a") and not P("b")   (all(..) true likewise): a literal
+                # tuple of constants, given in place or as a module-level name that nothing writes
+                g_ = a.args[0]
+                if len(g_.generators) == 1 and not g_.generators[0].ifs and isinstance(g_.generators[0].target, ast.Name):
+                    it_ = g_.generators[0].iter
+                    lit_ = it_ if isinstance(it_, (ast.Tuple, ast.List)) else None
+                    if isinstance(it_, ast.Name) and it_.id not in fa.locals and it_.id not in fa.fi.params:
+                        tgt_m = m.resolve_dotted(fa.fi.module, fa.fi, it_.id)
+                        mod_, _, nm_ = tgt_m.rpartition(".")
+                        mi_ = m.modules.get(mod_)
+                        cand = mi_.assigns.get(nm_) if mi_ is not None else None
+                        written = any(isinstance(n_, ast.Name) and n_.id == nm_ and isinstance(n_.ctx, (ast.Store, ast.Del)) for f_ in m.funcs.values() if f_.module is mi_ for n_ in own_nodes(f_)) if mi_ is not None else True
+                        if isinstance(cand, (ast.Tuple, ast.List)) and not written:
+                            lit_ = cand
+                    if lit_ is not None and lit_.elts and all(isinstance(e_, ast.Constant) for e_ in lit_.elts):
+                        new = []
+                        for e_ in lit_.elts:
+                            x2 = _Subst({g_.generators[0].target.id: clone_ast(e_)}).visit(clone_ast(g_.elt))
+                            x2 = _GetattrConst().visit(x2)
+                            ast.fix_missing_locations(x2)
+                            _attach(x2, a)
+                            new += [norm_atom(y_, p_) for y_, p_ in (facts_false(x2) if a.func.id == "any" else facts_true(x2))]
+                        out += new
+                        nxt += new
                 continue
             callee = None
             f = a.func
